@@ -118,6 +118,12 @@ class Link:
         tr = self.transport
         if self.blackhole or tr is None or tr._conn_lost:
             return
+        if tr._peer_eof:
+            # As the selector transport: after eof_received() returned True the read side is no
+            # longer polled, so a later RST is only noticed by the next write.
+            self.net.trace.add("rx.rst_after_eof", link=self.id)
+            tr._dead_on_write = err
+            return
         self.net.trace.add("rx.rst", link=self.id)
         cls, no, msg = _WRITE_ERR[err]
         tr._force_close(cls(no, msg))
@@ -163,6 +169,8 @@ class SimTransport(transports._FlowControlMixin, transports.Transport):
         self._stalled = False
         self._rx_pending: list[bytes] = []
         self._peer_eof_pending = False
+        self._peer_eof = False
+        self._dead_on_write = None
         self._extra.setdefault("peername", (link.host, link.port))
         self._extra.setdefault("sockname", ("10.0.0.2", 40000 + link.id))
         self._extra.setdefault("socket", None)
@@ -225,6 +233,11 @@ class SimTransport(transports._FlowControlMixin, transports.Transport):
             net.trace.add("tx.dropped", link=self._link.id, n=len(data), data=data.hex())
             return
         net.write_count += 1
+        if self._dead_on_write is not None:
+            cls, no, msg = _WRITE_ERR[self._dead_on_write]
+            net.trace.add("tx.failed", link=self._link.id, n=len(data), data=data.hex())
+            self._force_close(cls(no, msg))
+            return
         # Fault: the n-th write from now fails (EPIPE/ECONNRESET/ETIMEDOUT).
         if net.write_faults and net.write_faults[0][0] <= 1:
             _, err = net.write_faults.pop(0)
@@ -310,6 +323,7 @@ class SimTransport(transports._FlowControlMixin, transports.Transport):
         if self._paused:
             self._peer_eof_pending = True
             return
+        self._peer_eof = True
         try:
             keep_open = self._protocol.eof_received()
         except (SystemExit, KeyboardInterrupt):
